@@ -175,14 +175,15 @@ const (
 
 // World is one bucket shared by the instances of a scenario.
 type World struct {
-	sc    *Scenario
-	tr    *Trace
-	mu    sync.Mutex // guards store, watchers, counters
-	store *refstore.Store
-	ops   int64
-	insts []*Inst
-	ws    []*simWatcher
-	ended bool
+	sc      *Scenario
+	tr      *Trace
+	mu      sync.Mutex // guards store, watchers, counters
+	store   *refstore.Store
+	ops     int64
+	insts   []*Inst
+	ws      []*simWatcher
+	ended   bool
+	snapReq chan struct{}
 }
 
 type entry struct {
@@ -431,6 +432,12 @@ func (kv *simKV) call(kind int, key string, val []byte, exp uint64) (refstore.Ou
 		v = w.tr.valLocked(val)
 	}
 	w.tr.recLocked("issue", int64(kv.in.idx), op, int64(kind), inner, root, g, w.tr.keyLocked(key), v, int64(exp))
+	if p.fault != "" {
+		w.tr.recLocked("envmark", 1)
+	}
+	if 2*(p.pre+p.post) >= kv.in.spec.H {
+		w.tr.recLocked("envmark", 2)
+	}
 	w.tr.mu.Unlock()
 
 	if p.pre > 0 {
@@ -584,6 +591,7 @@ func (w *World) forceExpire(key string) {
 	w.tr.mu.Lock()
 	w.mu.Lock()
 	if rev := w.store.LastRev(key); rev != 0 {
+		w.tr.recLocked("envmark", 11)
 		w.store.Expire(key)
 		w.tr.recLocked("expire", w.tr.keyLocked(key), int64(rev))
 	}
